@@ -418,6 +418,51 @@ func c19UfsSharedDotDot(dotu bool, D int) Scenario {
 	}}
 }
 
+// (i) a directory is renamed through one fid while requests on other fids of the same
+// connection - designating the directory and things below it - are in flight
+func c19UfsRenameDir(other string, dotu bool, D int) Scenario {
+	var root, base string
+	name := fmt.Sprintf("ufs rename of a directory while a %s on a fid below it is in flight dotu=%v", other, dotu)
+	body := func() {
+		vs.EnableHB()
+		os.RemoveAll(root)
+		makeStdTree(root)
+		os.MkdirAll(filepath.Join(root, "d", "sub"), 0o755)
+		h := newUfsH(root, 8216, dotu)
+		c := h.Connect()
+		ver := "9P2000"
+		un := ""
+		if dotu {
+			ver = "9P2000.u"
+		} else {
+			un = go9p.OsUsers.Uid2User(os.Geteuid()).Name()
+		}
+		c.Version(8216, ver)
+		c.Rpc(tattach(1, 0, wire.NOFID, un, uint32(os.Geteuid()), dotu))
+		c.Rpc(twalk(2, 0, 1, "d"))
+		c.Rpc(twalk(2, 0, 2, "d", "h"))
+		c.Rpc(twalk(2, 0, 3, "d"))
+		c.Rpc(twalk(2, 0, 4, "d", "sub"))
+		st := wire.Stat{Type: 0xFFFF, Dev: 0xFFFFFFFF, Qid: wire.Qid{Type: 0xFF, Vers: 0xFFFFFFFF, Path: ^uint64(0)}, Mode: 0xFFFFFFFF, Atime: 0xFFFFFFFF, Mtime: 0xFFFFFFFF, Length: ^uint64(0), Name: "renamed", NUid: 0xFFFFFFFF, NGid: 0xFFFFFFFF, NMuid: 0xFFFFFFFF}
+		vs.Window(true)
+		switch other {
+		case "create":
+			c.Send(dotu, &wire.Msg{Type: wire.Tcreate, Tag: 12, Fid: 4, Name: "made", Perm: 0644, Mode: 1}, &wire.Msg{Type: wire.Twstat, Tag: 10, Fid: 1, Stat: st})
+		case "walk":
+			c.Send(dotu, twalk(11, 3, 3, "sub"), &wire.Msg{Type: wire.Twstat, Tag: 10, Fid: 1, Stat: st})
+		case "stat":
+			c.Send(dotu, &wire.Msg{Type: wire.Tstat, Tag: 13, Fid: 2}, &wire.Msg{Type: wire.Twstat, Tag: 10, Fid: 1, Stat: st})
+		}
+		vs.Idle()
+		vs.Window(false)
+	}
+	return Scenario{Name: name, Run: func(rc *RunCtx) *Result {
+		base, root = scratchDir("c19")
+		defer os.RemoveAll(base)
+		return runVs(rc, &VsSpec{Name: name, Body: body, Check: c19Check, P: D, Delay: true})
+	}}
+}
+
 func c19Scenarios(tier string) []Scenario {
 	D := 1
 	if tier == "thorough" {
@@ -434,6 +479,7 @@ func c19Scenarios(tier string) []Scenario {
 	out = append(out, c19UfsScenario(3, true, D), c19ClientScenario(3, false, D))
 	out = append(out, c19UfsSymlinkedRoot(false, D), c19UfsSymlinkedRoot(true, D))
 	out = append(out, c19UfsFreshUsers(D))
+	out = append(out, c19UfsRenameDir("create", false, D+1), c19UfsRenameDir("walk", true, D+1), c19UfsRenameDir("stat", true, D+1))
 	out = append(out, c19UfsSharedDotDot(false, D), c19UfsSharedDotDot(true, D))
 	out = append(out, c19UfsSpelledRoot("/", true, D), c19UfsSpelledRoot("//./", false, D))
 	out = append(out, c19UfsPipelineScenario(64, 0, false, D), c19UfsPipelineScenario(64, 33, true, D), c19UfsPipelineScenario(96, 0, true, D))
